@@ -96,6 +96,17 @@ def _leaf_fn(I, leaf):
             for _ in range(64):
                 r = s.check()
                 if r == z3.unknown:
+                    # first fallback: a fresh, non-incremental solver (full QF_BV preprocessing) with a longer limit
+                    s2 = z3.SolverFor('QF_BV'); s2.set('timeout', 90000)
+                    for c_ in s.assertions(): s2.add(c_)
+                    r = s2.check()
+                    qr['fresh'] = str(r)
+                    if r == z3.sat:
+                        # re-establish the model in the incremental solver so that the code below can read it
+                        mm2 = s2.model()
+                        fix = [x == mm2.eval(x, model_completion=True) for x in a]
+                        r = s.check(*fix)
+                if r == z3.unknown:
                     qr['split'] = True
                     saved_pc = I.pc
                     I.pc = list(I.pc) + [q.negation]
@@ -291,7 +302,7 @@ class Run:
         self.called.update(st['called']); self.modelled.update(st['modelled']); self.summarized.update(st['summarized'])
         if st['truncated']: self.unsupported.append({'slice': sl.name, 'unsupported': 'exploration truncated (time/leaf limit)'})
         self.query_s = getattr(self, 'query_s', 0.0) + sum(q['s'] for r in results if 'queries' in r for q in r['queries'])
-        self.slowq = sorted(((q['s'], q['name'], r['outcome'], r['witness'], q.get('slow_pc')) for r in results if 'queries' in r for q in r['queries']), reverse=True)[:10]
+        self.slowq = sorted(((q['s'], q['name'], r['outcome'], r['witness'], q.get('slow_pc')) for r in results if 'queries' in r for q in r['queries']), key=lambda x: -x[0])[:10]
         for r in results:
             if 'unsupported' in r:
                 r = dict(r); r['slice'] = sl.name
